@@ -327,6 +327,37 @@ static void sc_i(int W, int NJ) {
     vs_observe(vh::fmt("i ran=%d", J.total()).c_str());
 }
 
+// j) a job terminates the pool and then keeps working; main waits with loop_until_empty(): waiting for emptiness on a
+// terminated pool must still return only once the running job has finished (the queue is empty here, so it does return)
+static void sc_j(int W, int NJ) {
+    Reset rst;
+    Jobs J;
+    {
+        tlx::ThreadPool pool(W);
+        Track trk(&pool, &J);
+        tlx::ThreadPool* p = &pool;
+        for (int i = 0; i + 1 < NJ; ++i) {
+            vs_set_tag(1 + i);
+            pool.enqueue([&J, i]() { J.run(i); });
+        }
+        vs_set_tag(40);
+        pool.loop_until_empty();  // the independent jobs are done; only the terminating job follows
+        check_all_once(J, NJ - 1, "j/first");
+        int last = NJ - 1;
+        pool.enqueue([&J, p, last]() {
+            p->terminate();
+            J.run(last);  // work after terminate(): still part of the running job
+        });
+        vs_set_tag(50);
+        pool.loop_until_empty();
+        REQUIRE(pool.busy_.vs_peek() == 0, "loop_until_empty-returned-with-running-job", "j: busy=%zu after terminate() from a job", pool.busy_.vs_peek());
+        check_all_once(J, NJ, "j");
+        REQUIRE(pool.done_.vs_peek() == (size_t)NJ, "done-count", "done()=%zu after %d jobs", pool.done_.vs_peek(), NJ);
+    }
+    g_pool = nullptr;
+    vs_observe(vh::fmt("j ran=%d", J.total()).c_str());
+}
+
 // g) reuse: two rounds
 static void sc_g(int W, int NJ) {
     Reset rst;
@@ -399,6 +430,8 @@ int main(int argc, char** argv) {
         if (W <= 2) add(vh::fmt("h:w%d:j1", W), "external-terminate", [W] { sc_h(W, 1); }, W == 1 ? 'P' : 'D', 2, 3);
         if (W == 1) add(vh::fmt("g:w%d:j2", W), "reuse", [W] { sc_g(W, 2); }, 'P', 2, 3);
         if (W <= 2) {
+            add(vh::fmt("j:w%d:j1", W), "terminate-then-wait-empty", [W] { sc_j(W, 1); }, 'P', W == 1 ? 3 : 2, W == 1 ? 4 : 3);
+            add(vh::fmt("j:w%d:j2", W), "terminate-then-wait-empty", [W] { sc_j(W, 2); }, W == 1 ? 'P' : 'D', 2, 3);
             add(vh::fmt("i:w%d:j1", W), "owning-closures", [W] { sc_i(W, 1); }, 'P', W == 1 ? 3 : 1, W == 1 ? 4 : 2);
             add(vh::fmt("i:w%d:j2", W), "owning-closures", [W] { sc_i(W, 2); }, W == 1 ? 'P' : 'D', W == 1 ? 2 : 2, 3);
         }
